@@ -31,27 +31,15 @@ fn main() {
         };
         let kind = v["kind"].as_str().unwrap_or("").to_string();
         let case = v["case"].clone();
-        match args.prop.as_str() {
-            "C14" => props::c14::replay(&ctx, &case),
-            "C15" => props::c15::replay(&ctx, &case),
-            "C16" => props::c16::replay(&ctx, &case),
-            "C17" => props::c17::replay(&ctx, &kind, &case),
-            p => {
-                println!("INCONCLUSIVE property={} reason=no replay routine", p);
-                std::process::exit(2);
-            }
+        if !props::replay(&ctx, &args.prop, &kind, &case) {
+            println!("INCONCLUSIVE property={} reason=no replay routine", args.prop);
+            std::process::exit(2);
         }
         std::process::exit(ctx.finish());
     }
-    match args.prop.as_str() {
-        "C14" => props::c14::run(&ctx),
-        "C15" => props::c15::run(&ctx),
-        "C16" => props::c16::run(&ctx),
-        "C17" => props::c17::run(&ctx),
-        p => {
-            println!("INCONCLUSIVE property={} reason=unknown property", p);
-            std::process::exit(2);
-        }
+    if !props::run(&ctx, &args.prop) {
+        println!("INCONCLUSIVE property={} reason=unknown property", args.prop);
+        std::process::exit(2);
     }
     std::process::exit(ctx.finish());
 }
